@@ -1,6 +1,7 @@
 package props
 
 import (
+	"go/token"
 	"go/types"
 	"strings"
 
@@ -77,6 +78,9 @@ func energyValueRule(c *an.Ctx, fn *ssa.Function) {
 						}
 					}
 				}
+				if used && primesRowLoop(fn, call) {
+					continue // record, err := r.Read(); for ; err == nil; record, err = r.Read() { .. }: the first row enters the loop like every other
+				}
 				if !used {
 					c.Violated("PRED", fn, call.Pos(), an.KeyOf(fn, "row-consumed-unprocessed"), "a row of the energy file is read and discarded outside the row loop: a well-formed first row (a file without header line) yields no record", "the record result of this Read call is never used")
 				} else {
@@ -85,6 +89,19 @@ func energyValueRule(c *an.Ctx, fn *ssa.Function) {
 				continue
 			}
 			rerr := fi.FieldlessExtract(call, 1)
+			// the loop may test the error through the variable that both reads assign (a phi of their error results)
+			var rerrPhi *an.Term
+			if refs := call.Referrers(); refs != nil {
+				for _, r := range *refs {
+					if ex, ok := r.(*ssa.Extract); ok && ex.Index == 1 && ex.Referrers() != nil {
+						for _, r2 := range *ex.Referrers() {
+							if ph, ok := r2.(*ssa.Phi); ok && readErrPhi(ph) {
+								rerrPhi = fi.Term(ph)
+							}
+						}
+					}
+				}
+			}
 			okEx, where, nEx := true, "", 0
 			for _, u := range fn.Blocks {
 				if !l.body[u] {
@@ -103,6 +120,9 @@ func energyValueRule(c *an.Ctx, fn *ssa.Function) {
 						fs[f.Key()] = f
 					}
 					isErr := fs.Has(an.NormBin("!=", rerr, an.ConstTerm("nil")).Key())
+					if rerrPhi != nil && fs.Has(an.NormBin("!=", rerrPhi, an.ConstTerm("nil")).Key()) {
+						isErr = true
+					}
 					for _, f := range fs {
 						// err == io.EOF (a non-nil sentinel)
 						if !f.Neg && f.T.K == an.KBin && f.T.S == "==" {
@@ -126,8 +146,14 @@ func energyValueRule(c *an.Ctx, fn *ssa.Function) {
 			c.Check(okEx && nEx > 0, "PRED", fn, call.Pos(), an.KeyOf(fn, "all-rows"), "the row loop is left only when the csv reader returns an error (end of file included): a bad row is skipped, never ends the scan", "exit near "+where)
 		}
 	}
-	// find the phi that feeds the Energy field of the appended record
-	var energyPhi *ssa.Phi
+	// the ways the Energy field of the appended record gets its value: the incoming edges of the phi that is stored into
+	// it, or the stores into the field of a record that is filled field by field in the branches of the rule
+	type energyCase struct {
+		val   ssa.Value
+		facts an.FactSet
+	}
+	var cases []energyCase
+	var casePos token.Pos
 	var tsVal ssa.Value
 	for _, b := range fn.Blocks {
 		for _, in := range b.Instrs {
@@ -141,17 +167,32 @@ func energyValueRule(c *an.Ctx, fn *ssa.Function) {
 			}
 			switch fieldNameOf(fa) {
 			case "Energy":
-				energyPhi, _ = st.Val.(*ssa.Phi)
+				casePos = st.Pos()
+				if ph, isPhi := st.Val.(*ssa.Phi); isPhi {
+					for k, e := range ph.Edges {
+						pred := ph.Block().Preds[k]
+						facts := an.FactSet{}
+						for key, f := range fi.FactsAtBlock(pred) {
+							facts[key] = f
+						}
+						for _, f := range fi.EdgeFacts(pred, ph.Block()) {
+							facts[f.Key()] = f
+						}
+						cases = append(cases, energyCase{e, facts})
+					}
+				} else {
+					cases = append(cases, energyCase{st.Val, fi.FactsAt(st)})
+				}
 			case "Timeslot":
 				tsVal = st.Val
 			}
 		}
 	}
-	if energyPhi == nil || tsVal == nil {
+	if len(cases) == 0 || tsVal == nil {
 		c.Undecided("PRED", fn, fn.Pos(), an.KeyOf(fn, "value-rule-shape"), "the record's Energy is not a three-way choice (phi) or Timeslot is not set", "shape not recognised")
 		return
 	}
-	c.Count("PRED", len(energyPhi.Edges))
+	c.Count("PRED", len(cases))
 	// the parsed reading
 	var reading *an.Term
 	for _, b := range fn.Blocks {
@@ -178,15 +219,8 @@ func energyValueRule(c *an.Ctx, fn *ssa.Function) {
 		return nil
 	}()
 	seen := map[string]bool{}
-	for k, e := range energyPhi.Edges {
-		pred := energyPhi.Block().Preds[k]
-		facts := an.FactSet{}
-		for key, f := range fi.FactsAtBlock(pred) {
-			facts[key] = f
-		}
-		for _, f := range fi.EdgeFacts(pred, energyPhi.Block()) {
-			facts[f.Key()] = f
-		}
+	for _, cs := range cases {
+		e, facts := cs.val, cs.facts
 		et := fi.Term(e)
 		errNonNil := an.NormBin("!=", parseErr, an.ConstTerm("nil")).Key()
 		errNil := an.NormBin("==", parseErr, an.ConstTerm("nil")).Key()
@@ -246,7 +280,7 @@ func energyValueRule(c *an.Ctx, fn *ssa.Function) {
 		}
 	}
 	if !(seen["2"] && seen["3"] && seen["scaled"]) {
-		c.Violated("PRED", fn, energyPhi.Pos(), an.KeyOf(fn, "value-rule-cases"), "the value rule does not have the three cases 3 / 2 / scaled", "cases found: "+keysOf(seen))
+		c.Violated("PRED", fn, casePos, an.KeyOf(fn, "value-rule-cases"), "the value rule does not have the three cases 3 / 2 / scaled", "cases found: "+keysOf(seen))
 	}
 	// timeslot of the same row
 	tt := fi.Term(tsVal)
@@ -307,18 +341,83 @@ func isConstTerm(t *an.Term, k string) bool {
 
 // sameRow: both terms are derived from the same csv record value.
 func sameRow(a, b *an.Term) bool {
-	var ra, rb string
-	a.Walk(func(t *an.Term) {
-		if t.K == an.KExt && t.S == "0" && t.A[0].Callee() == "(*encoding/csv.Reader).Read" {
-			ra = t.Key()
-		}
-	})
-	b.Walk(func(t *an.Term) {
-		if t.K == an.KExt && t.S == "0" && t.A[0].Callee() == "(*encoding/csv.Reader).Read" {
-			rb = t.Key()
-		}
-	})
+	rowOf := func(x *an.Term) string {
+		r := ""
+		x.Walk(func(t *an.Term) {
+			if t.K == an.KExt && t.S == "0" && t.A[0].Callee() == "(*encoding/csv.Reader).Read" {
+				r = t.Key()
+			}
+			// the row variable that a priming read and the read at the end of the loop body both assign
+			if ph, ok := t.Val.(*ssa.Phi); ok && t.K == an.KPhi && len(ph.Edges) > 0 {
+				all := true
+				for _, e := range ph.Edges {
+					ex, ok := e.(*ssa.Extract)
+					if !ok || ex.Index != 0 {
+						all = false
+						break
+					}
+					if cl, ok := ex.Tuple.(*ssa.Call); !ok || an.CalleeName(&cl.Call) != "(*encoding/csv.Reader).Read" {
+						all = false
+					}
+				}
+				if all {
+					r = t.Key()
+				}
+			}
+		})
+		return r
+	}
+	ra, rb := rowOf(a), rowOf(b)
 	return ra != "" && ra == rb
+}
+
+// readErrPhi: every incoming value of the phi is the error result of a csv Read call.
+func readErrPhi(ph *ssa.Phi) bool {
+	for _, e := range ph.Edges {
+		ex, ok := e.(*ssa.Extract)
+		if !ok || ex.Index != 1 {
+			return false
+		}
+		if cl, ok := ex.Tuple.(*ssa.Call); !ok || an.CalleeName(&cl.Call) != "(*encoding/csv.Reader).Read" {
+			return false
+		}
+	}
+	return len(ph.Edges) > 0
+}
+
+// primesRowLoop: the results of this Read (outside any loop) only feed phis at the header of a loop that itself
+// contains a Read feeding the same phis.
+func primesRowLoop(fn *ssa.Function, call *ssa.Call) bool {
+	refs := call.Referrers()
+	if refs == nil {
+		return false
+	}
+	ok := false
+	for _, r := range *refs {
+		ex, isEx := r.(*ssa.Extract)
+		if !isEx || ex.Referrers() == nil {
+			continue
+		}
+		for _, r2 := range *ex.Referrers() {
+			ph, isPhi := r2.(*ssa.Phi)
+			if !isPhi {
+				return false
+			}
+			inLoopRead := false
+			for _, e := range ph.Edges {
+				if e2, isE := e.(*ssa.Extract); isE && e2.Index == ex.Index {
+					if cl, isC := e2.Tuple.(*ssa.Call); isC && cl != call && an.CalleeName(&cl.Call) == "(*encoding/csv.Reader).Read" && innermostLoopOf(fn, cl.Block()) != nil {
+						inLoopRead = true
+					}
+				}
+			}
+			if !inLoopRead {
+				return false
+			}
+			ok = true
+		}
+	}
+	return ok
 }
 
 func keysOf(m map[string]bool) string {
@@ -372,7 +471,7 @@ func calibrationRule(c *an.Ctx, fn *ssa.Function) {
 				continue // defaults
 			}
 			n++
-			vt := fi.Term(st.Val)
+			vt := fi.RefineAt(fi.Term(st.Val), st)
 			okShape := false
 			nScans := -1
 			if vt.K == an.KExt && vt.S == "0" && vt.A[0].Callee() == "strconv.ParseFloat" {
